@@ -89,6 +89,10 @@ pub fn struct_fields(name: &str) -> &'static [(&'static str, Ty)] {
         "S" => &[("a", Ty::Int), ("b", Ty::Bool)],
         "S2" => &[("b", Ty::Bool), ("a", Ty::Int)],
         "T" => &[("a", Ty::Int), ("b", Ty::Bool), ("c", Ty::Str)],
+        "P" => &[("p", Ty::Int)],
+        "Q" => &[("q", Ty::Bool)],
+        "R" => &[("r", Ty::Str)],
+        "W" => &[("p", Ty::Int), ("q", Ty::Bool), ("r", Ty::Str), ("z", Ty::Int)],
         _ => &[],
     }
 }
@@ -96,7 +100,7 @@ pub fn struct_fields(name: &str) -> &'static [(&'static str, Ty)] {
 pub const ENUM_VARIANTS: [&str; 3] = ["A", "B", "C"];
 
 /// The declarations every generated document starts with.
-pub const PRELUDE: &str = "enum E { A, B, C }\nstruct S { a int, b bool }\nstruct S2 { b bool, a int }\nstruct T { a int, b bool, c string }\nlet g = 7\n";
+pub const PRELUDE: &str = "enum E { A, B, C }\nstruct S { a int, b bool }\nstruct S2 { b bool, a int }\nstruct T { a int, b bool, c string }\nstruct P { p int }\nstruct Q { q bool }\nstruct R { r string }\nstruct W { p int, q bool, r string, z int }\nlet g = 7\n";
 
 /// Fixed parameter list of every generated function.
 pub const PARAMS: [(&str, Ty); 14] = [
